@@ -17,6 +17,9 @@ from typing import Any, Callable, Dict, List, Optional
 VERIF = os.path.dirname(os.path.dirname(os.path.abspath(__file__)))
 REPO = os.environ.get("VERIF_REPO", "/repo")
 SEED = int(os.environ.get("VERIF_SEED", "0") or 0)
+# evidence / replays of runs against a scratch tree (VERIF_REPO set by the developer for mutation testing) must not
+# overwrite the records of /repo itself
+OUT = VERIF if os.path.abspath(REPO) == "/repo" else os.path.join(VERIF, ".scratch")
 
 # obligation status values
 DISCHARGED = "discharged"  # solver: unsat (proved for all values of the signature)
@@ -160,7 +163,7 @@ def _san(s: str) -> str:
 
 
 def write_replay(pid: str, obl: dict) -> str:
-    d = os.path.join(VERIF, "replays", pid)
+    d = os.path.join(OUT, "replays", pid)
     os.makedirs(d, exist_ok=True)
     path = os.path.join(d, _san(obl["name"]) + ".json")
     payload = {
@@ -317,8 +320,8 @@ def report(v: Verdict, evidence_extra: dict, wall_s: float, level_if_complete: s
         "violations": len(v.violations),
     }
     ev.update(evidence_extra)
-    os.makedirs(os.path.join(VERIF, "evidence"), exist_ok=True)
-    with open(os.path.join(VERIF, "evidence", f"{v.pid}.json"), "w") as f:
+    os.makedirs(os.path.join(OUT, "evidence"), exist_ok=True)
+    with open(os.path.join(OUT, "evidence", f"{v.pid}.json"), "w") as f:
         json.dump(ev, f, indent=1, default=str)
     print(
         f"{v.pid} [{v.tier}] obligations={n_ob} discharged={n_dis} bounded={len(bounded)} "
